@@ -115,6 +115,7 @@ func ReceiveDirectInvoke(w http.ResponseWriter, r *http.Request, token interop.T
 		}
 	}
 
+	InvokeResponseMode = interop.InvokeResponseModeBuffered
 	if valueFromHeader := r.Header.Get(InvokeResponseModeHeader); valueFromHeader != "" {
 		invokeResponseMode, err := convertToInvokeResponseMode(valueFromHeader)
 		if err != nil {
